@@ -126,6 +126,8 @@ func canonLine(backend, l string) string {
 			return "session create"
 		case strings.HasPrefix(l, "GET ") && strings.HasSuffix(l, "/gateway-policies"):
 			return "gateway-policies"
+		case strings.HasPrefix(l, "GET ") && strings.Contains(l, "/gateway-policies/"):
+			return "policy"
 		case strings.HasPrefix(l, "GET ") && strings.Contains(l, "/infra/services"):
 			return "services"
 		case strings.HasPrefix(l, "GET ") && strings.Contains(l, "/default/groups"):
